@@ -51,6 +51,15 @@ func init() {
 		i, has := bmtree.PathToIndexLoose(c05Full(h), w)
 		return L(I32(i), I32(has), U(bmtree.IndexToPath(h, i)))
 	}
+	Exec["bmtree.AllPaths/full"] = func(a []V) string {
+		h := a[0].I32()
+		T := c05Full(h)
+		ws := make([]uint64, 0, int(T))
+		for i := int32(0); i < T; i++ {
+			ws = append(ws, bmtree.IndexToPath(h, i))
+		}
+		return L(U64s(bmtree.AllPaths(T, 0, 1<<63)), U64s(ws))
+	}
 	Exec["bmtree.Height/full"] = func(a []V) string { return I32(bmtree.Height(c05Full(a[0].I32()))) }
 	Register("C05", genC05)
 }
@@ -306,6 +315,13 @@ func genC05(g *Gen) {
 		g.Do("bmtree.Height/full", L(Int(h)), fmt.Sprintf("height/%d", h))
 	}
 	g.Exhaust = append(g.Exhaust, "Height(2^(h+1)-1) for every h in 0..30")
+
+	hmax := g.N(10, 13)
+	for h := 0; h <= hmax; h++ {
+		g.Stat("allpaths-full")
+		g.Do("bmtree.AllPaths/full", L(Int(h)), fmt.Sprintf("allpaths/%d", h))
+	}
+	g.Exhaust = append(g.Exhaust, fmt.Sprintf("AllPaths(2^(h+1)-1, 0, 1<<63) next to [IndexToPath(h,i)]_i for every h in 0..%d", hmax))
 
 	// (1) exhaustive: heights 0..12 x every index (this includes the whole idxToPath table through the API)
 	for h := 0; h <= 12; h++ {
